@@ -656,30 +656,34 @@ fn run_scenario(line: &str, out: &mut impl Write) {
     REGISTRY.with(|r| r.borrow_mut().clear());
     SPEC_TRACKING.with(|t| t.set(false));
     let mut lines: Vec<String> = Vec::new();
+    let mut env: Env = None;
     let root = create_root(|| {
         let h = use_global_scope();
         register(0, Bind::Handle(h));
-        let mut env = bind(&None, 0, Bind::Handle(h));
-        for s in stmts.iter() {
-            let r = panic::catch_unwind(AssertUnwindSafe(|| exec1(&env, s)));
-            lines.extend(LOG.with(|l| std::mem::take(&mut *l.borrow_mut())));
-            match r {
-                Ok(e) => {
-                    env = e;
-                    lines.push(snapshot());
+        env = bind(&None, 0, Bind::Handle(h));
+    });
+    for s in stmts.iter() {
+        // every top-level statement runs in the root (RootHandle::run_in), except disposals: a handle may be disposed from anywhere,
+        // e.g. from code that runs outside every reactive root
+        let outside = matches!(s, Stmt::Dispose(_));
+        let r = panic::catch_unwind(AssertUnwindSafe(|| if outside { exec1(&env, s) } else { root.run_in(|| exec1(&env, s)) }));
+        lines.extend(LOG.with(|l| std::mem::take(&mut *l.borrow_mut())));
+        match r {
+            Ok(e) => {
+                env = e;
+                lines.push(root.run_in(snapshot));
+            }
+            Err(_) => {
+                let (msg, file) = LAST_PANIC.with(|p| p.borrow_mut().take()).unwrap_or_default();
+                let class = classify(&msg, &file);
+                if std::env::var("VERIF_DEBUG").is_ok() {
+                    eprintln!("panic: {msg} @ {file}");
                 }
-                Err(_) => {
-                    let (msg, file) = LAST_PANIC.with(|p| p.borrow_mut().take()).unwrap_or_default();
-                    let class = classify(&msg, &file);
-                    if std::env::var("VERIF_DEBUG").is_ok() {
-                        eprintln!("panic: {msg} @ {file}");
-                    }
-                    lines.push(format!("panic {class}"));
-                    break;
-                }
+                lines.push(format!("panic {class}"));
+                break;
             }
         }
-    });
+    }
     // the end of every scenario: the root is disposed through its RootHandle, from outside, and what happens meanwhile is observed
     lines.push("rootdispose".to_string());
     LAST_PANIC.with(|p| *p.borrow_mut() = None);
